@@ -91,7 +91,7 @@ class _Acc:
 def _reject_sig(ev, st_before):
     k, n = ev
     if k != "td" and n is not None and S.is_typedef(st_before, n):
-        return {"enum": "enumerator", "init_enum": "enumerator"}.get(k, k) + "-named-like-typedef"
+        return {"enum": "enumerator", "init_enum": "enumerator", "member_enum": "enumerator"}.get(k, k) + "-named-like-typedef"
     return "reject-after:" + k
 
 
@@ -162,7 +162,8 @@ def _check_history(hist, st, parent_st, bad, diverged, acc, parser, probes_on, s
                     ev = _culprit(hist, name, parser)
                     rel = "(other-name)" if ev[1] not in (None, name) else ""
                     what = "misclassified" if r[0] == "mismatch" else "probe-" + r[0]
-                    sig = "%s-after:%s%s:expected-%s" % (what, ev[0], rel, "typedef" if td else "ordinary")
+                    evname = {"init_enum": "enumerator-inside-braces", "member_enum": "enumerator-inside-braces"}.get(ev[0], ev[0])
+                    sig = "%s-after:%s%s:expected-%s" % (what, evname, rel, "typedef" if td else "ordinary")
                     diverged = dict(diverged)
                     diverged[name] = sig
                 acc.fail(sig, {"text": text, "depth": d, "probe": pid, "name": name, "typedef": td,
@@ -318,7 +319,7 @@ def run(tier):
     # events that change the scope stack.  Shorter histories of a smaller
     # alphabet are already part of the larger alphabet's sweep.
     if quick:
-        sweeps = [("full", 3, False, 0), ("reduced", 4, False, 4), ("core", 5, False, 5)]
+        sweeps = [("full", 3, True, 0), ("reduced", 4, False, 4), ("core", 5, False, 5)]
     else:
         sweeps = [("full", 4, True, 0), ("reduced", 5, False, 5), ("core", 7, False, 6)]
     tasks = []
@@ -357,7 +358,7 @@ def run(tier):
             R.known_hits[i] = sum(tot.get("fail:" + s, 0) for s in k["signatures"]) or R.known_hits[i]
 
     # model audit: gcc accepts every history (no probes: they use undeclared x)
-    audit = _audit_programs(2 if quick else 3, "full", not quick)
+    audit = _audit_programs(2 if quick else 3, "full", True)
     n_aud = 0
     for n, bad in core.pmap(_gcc_audit, core.chunked(audit, 40), chunksize=1):
         n_aud += n
